@@ -30,7 +30,10 @@ CUR = {'ctx': None, 'case': None}
 def shards(tier, seed):
     per = 180 if tier == 'quick' else 15000
     budget = 45 if tier == 'quick' else 540
-    return [{'kind': 'random', 'count': per, 'budget_s': budget} for _ in range(16)]
+    _out = [{'kind': 'random', 'count': per, 'budget_s': budget} for _ in range(16)]
+    if tier == 'thorough':
+        _out.append({'kind': 'suite', 'select': ['tests'], 'budget_s': 900})
+    return _out
 
 
 # ------------------------------------------------------------------ composition model
@@ -412,6 +415,11 @@ def gen_case(rng, spec):
 
 def run_shard(spec, ctx):
     install(ctx)
+    if spec.get('kind') == 'suite':
+        from vt import suite
+        import sys
+        suite.run(sys.modules[__name__], ctx, select=spec.get('select'))
+        return
     for i in range(spec['count']):
         if ctx.out_of_time():
             ctx.count('stopped_on_budget')
